@@ -37,17 +37,20 @@ func profileByName(name string, r *rand.Rand) Profile {
 		p.WCrash, p.CrashPct, p.RestartPct, p.AppLagPct = 5, 100, 40, 50
 	case "async-lag":
 		p.AppLagPct, p.WStorage, p.CrashPct, p.WCrash = 90, 6, 40, 4
+		p.ReadyLagPct = 50
 	case "snapshot":
 		p.CompactPct, p.WMisc, p.CCPct, p.DropPct, p.WNet, p.CrashPct, p.WCrash, p.WPropose = 100, 9, 30, 10, 5, 30, 4, 9
 	case "snapshot-lag":
 		// snapshots and compaction while storage threads lag and terms change
 		p.CompactPct, p.WMisc, p.AppLagPct, p.DropPct, p.WTick, p.CampaignPct, p.WNet, p.CrashPct, p.CCPct, p.WPropose = 100, 9, 85, 10, 22, 40, 5, 15, 30, 9
+		p.ReadyLagPct = 75
 	case "churn":
 		p.CCPct, p.WMisc, p.CrashPct, p.DropPct = 100, 9, []int{0, 10}[r.Intn(2)], []int{0, 5}[r.Intn(2)]
 	case "churn-lag":
 		// membership changes while apply threads lag and links flap: elections
 		// under configurations that are a few changes behind
 		p.CCPct, p.WMisc, p.AppLagPct, p.WNet, p.WTick, p.CrashPct, p.DropPct, p.CampaignPct = 100, 9, 90, 5, 24, 5, 5, 30
+		p.ReadyLagPct = 60
 	case "flow":
 		p.BigPct, p.WPropose, p.DropPct, p.DupPct, p.StalePct, p.CrashPct = 40, 16, 15, 15, 40, 5
 	case "read":
@@ -69,6 +72,7 @@ func profileByName(name string, r *rand.Rand) Profile {
 		p.CompactPct = []int{0, 30, 100}[r.Intn(3)]
 		p.StalePct = []int{0, 50, 100}[r.Intn(3)]
 		p.CCPct = []int{0, 30, 100}[r.Intn(3)]
+		p.ReadyLagPct = []int{0, 0, 40, 80}[r.Intn(4)]
 	default:
 		panic("harness: unknown profile " + name)
 	}
@@ -348,6 +352,35 @@ func (w *World) Gen(r *rand.Rand) Action {
 		}
 		return Action{K: "healnet"}
 	}
+	// burst: several messages (in flight, or stale copies) reach one node between
+	// two of its Readys
+	if w.burstLeft > 0 {
+		w.burstLeft--
+		if t := w.nodes[w.burstNode]; t != nil && t.up() {
+			var cand []int
+			for _, id := range w.order {
+				if nm := w.net[id]; nm != nil && nm.to == w.burstNode {
+					cand = append(cand, id)
+					if len(cand) >= 8 {
+						break
+					}
+				}
+			}
+			if len(cand) > 0 && r.Intn(4) != 0 {
+				return Action{K: "deliver", A: uint64(cand[r.Intn(len(cand))]), F: r.Intn(8) == 0}
+			}
+			var oc []int
+			for i, nm := range w.old {
+				if nm.to == w.burstNode {
+					oc = append(oc, i)
+				}
+			}
+			if len(oc) > 0 && hostile && pct(r, p.StalePct/2) {
+				return Action{K: "stale", A: uint64(oc[r.Intn(len(oc))])}
+			}
+		}
+		w.burstLeft = 0
+	}
 	for try := 0; try < 16; try++ {
 		n := ups[r.Intn(len(ups))]
 		wWork, wTick, wClient, wFault := 100, p.WTick, p.WPropose+p.WRead+p.WMisc, 0
@@ -369,9 +402,15 @@ func (w *World) Gen(r *rand.Rand) Action {
 			if it.lag && pct(r, p.AppLagPct) && (hostile || p.AppLagPct >= 80) {
 				continue
 			}
+			if (it.k == "ready" || it.k == "aready") && pct(r, p.ReadyLagPct) {
+				continue
+			}
 			if it.k == "deliver" {
 				if hostile && pct(r, p.DropPct) {
 					return Action{K: "drop", A: it.a, F: r.Intn(4) == 0}
+				}
+				if nm := w.net[int(it.a)]; nm != nil && (hostile || p.ReadyLagPct > 0) && pct(r, 8+p.ReadyLagPct/4) {
+					w.burstNode, w.burstLeft = nm.to, 1+r.Intn(4)
 				}
 				return Action{K: "deliver", A: it.a, F: hostile && pct(r, p.DupPct)}
 			}
